@@ -6,9 +6,9 @@ import NmVerif.Lemmas.Concatenate
 import NmVerif.Lemmas.Roll
 import NmVerif.Lemmas.Resize
 import NmVerif.Index.Expand
-import NmVerif.Index.Diagonal
-import NmVerif.Index.SlidingWindow
-import NmVerif.Index.Split
+import NmVerif.Lemmas.Diagonal
+import NmVerif.Lemmas.SlidingWindow
+import NmVerif.Lemmas.Split
 import NmVerif.Index.Stack
 /-
   C04 — selecting / replicating / joining / generating views equal their reference result.
@@ -814,8 +814,8 @@ example : (diagflatView [2, 2] (-1)).map (fun v => (v.dst, v.map [1, 0], v.map [
     some ([5, 5], some [0, 0], some [1, 1], none) := by decide
 
 /-! ### sliding_window (scalar window on one axis — NumPy `sliding_window_view(a, w, axis=k)`: extent `e - w + 1` on the
-    axis, a trailing window axis of extent `w`, `out[i…, o] = a[i with i[k] + o]`).  Window lists / axis lists / axis None
-    are under correspondence only (PARTIAL). -/
+    axis, a trailing window axis of extent `w`, `out[i…, o] = a[i with i[k] + o]`).  Window lists with axis lists / axis
+    None: `slidingWindowList_*`, `slidingWindowNone_*`, `slidingWindowScalarNone_rank1` below. -/
 
 theorem slidingWindow_shape (s : Shape) (w : Nat) (axis : Int) (k e : Nat) (hk : normalizeAxis1 axis s.length = some k)
     (he : s[k]? = some e) :
@@ -869,9 +869,145 @@ theorem slidingWindow_inBounds (s : Shape) (w : Nat) (axis : Int) (k e : Nat) (h
 example : (slidingWindowView [2, 4] [2] (some [-1]) true).map (fun v => (v.dst, v.map [1, 2, 1])) =
     some ([2, 3, 2], some [1, 3]) := by decide
 
+/-! ### sliding_window with a window LIST and an axis LIST (NumPy `sliding_window_view(a, window_shape, axis)`,
+    `len(window_shape) = len(axis)`, axes may be negative and may repeat): SPEC `swShape` / `swIndex` in
+    Lemmas/SlidingWindow.lean. -/
+
+
+set_option linter.unusedVariables false in
+/-- shape = NumPy's: every listed axis trimmed by `w - 1` (a repeated axis by the total), window extents appended.
+    `hw` / `hfit` delimit NumPy's domain (windows `≥ 1`, total trim within the extent), on which the subtractions in
+    `swShape` are exact and the `size_t` arithmetic of the C++ does not wrap (the equation itself needs none of them). -/
+theorem slidingWindowList_shape (s ws : List Nat) (axes : List Int) (ks : List Nat) (hk : AxesNorm s.length axes ks)
+    (hl : ws.length = axes.length) (hw : ∀ w ∈ ws, 1 ≤ w)
+    (hfit : ∀ p e, s[p]? = some e → winSum ks (ws.map (· - 1)) p ≤ e) :
+    ∃ v, slidingWindowView s ws (some axes) false = some v ∧ v.src = s ∧ v.dst = swShape s ks ws := by
+  simp only [slidingWindowView, shapeSlidingWindow, mapM_normalizeAxis1_of_axesNorm _ _ _ hk, Option.map_some]
+  exact ⟨_, rfl, rfl, by rw [shrinkAxes_eq s ks ws hk.lt]; rfl⟩
+
+/-- element `(i…, o…)` reads the source at `i[p] + Σ_{axis j = p} o[j]` (NumPy's strides: one window axis per listed
+    axis, a repeated axis accumulates) -/
+theorem slidingWindowList_elem (s ws : List Nat) (axes : List Int) (ks : List Nat) (hk : AxesNorm s.length axes ks)
+    (v : IxView) (hv : slidingWindowView s ws (some axes) false = some v) (i o : Idx) (hi : i.length = s.length) :
+    v.map (i ++ o) = some (swIndex i ks o) := by
+  simp only [slidingWindowView, shapeSlidingWindow, mapM_normalizeAxis1_of_axesNorm _ _ _ hk, Option.map_some,
+    Option.some.injEq] at hv
+  subst hv
+  have ht : (i ++ o).take s.length = i := by rw [← hi]; simp
+  have hdr : (i ++ o).drop s.length = o := by rw [← hi]; simp
+  simp only [indexSlidingWindow, ht, hdr]
+  rw [addWindowOffsets_eq i axes ks o (by rw [hi]; exact hk)]
+  rfl
+
+set_option linter.unusedVariables false in
+/-- no access leaves the source.  `hw` / `hfit` are the domain on which the model mirrors the C++ (`size_t` arithmetic
+    without wrap-around; NumPy's own domain is slightly smaller: it also refuses a trimmed extent of 0) -/
+theorem slidingWindowList_inBounds (s ws : List Nat) (axes : List Int) (ks : List Nat) (hk : AxesNorm s.length axes ks)
+    (hw : ∀ w ∈ ws, 1 ≤ w) (hfit : ∀ p e, s[p]? = some e → winSum ks (ws.map (· - 1)) p ≤ e)
+    (v : IxView) (hv : slidingWindowView s ws (some axes) false = some v) : v.InBounds := by
+  have hdst : v.src = s ∧ v.dst = swShape s ks ws := by
+    simp only [slidingWindowView, shapeSlidingWindow, mapM_normalizeAxis1_of_axesNorm _ _ _ hk, Option.map_some,
+      Option.some.injEq] at hv
+    subst hv
+    exact ⟨rfl, by show shrinkAxes s ks ws ++ ws = _; rw [shrinkAxes_eq s ks ws hk.lt]; rfl⟩
+  intro d hd r hr
+  rw [hdst.2, swShape, inShape_append_iff] at hd
+  rw [hdst.1]
+  simp only [List.length_mapIdx] at hd
+  obtain ⟨hd1, hd2⟩ := hd
+  have hdl := hd1.length_eq
+  simp only [List.length_mapIdx] at hdl
+  have hsplit : d = d.take s.length ++ d.drop s.length := (List.take_append_drop _ _).symm
+  rw [hsplit, slidingWindowList_elem s ws axes ks hk v hv _ _ hdl] at hr
+  simp only [Option.some.injEq] at hr
+  subst hr
+  exact swIndex_inShape s ks ws _ _ hd1 hd2
+
+example : AxesNorm 2 [-1, 0, 1] [1, 0, 1] ∧ (∀ w ∈ [2, 2, 2], 1 ≤ w) ∧ swShape [3, 4] [1, 0, 1] [2, 2, 2] = [2, 2, 2, 2, 2] ∧
+    swIndex [1, 1] [1, 0, 1] [1, 0, 1] = [1, 3] := by
+  refine ⟨.cons (by decide) (.cons (by decide) (.cons (by decide) .nil)), by decide, by decide, by decide⟩
+/-- repeated axis (negative and positive spelling of axis 1): the two window coordinates add up -/
+example : (slidingWindowView [3, 4] [2, 2, 2] (some [-1, 0, 1]) false).map (fun v => (v.dst, v.map [1, 1, 1, 0, 1])) =
+    some ([2, 2, 2, 2, 2], some [1, 3]) := by decide
+
+/-- the domain hypotheses `hfit` hold on the example above (total trim 1 on axis 0, 2 on axis 1) -/
+example : ∀ p e, ([3, 4] : List Nat)[p]? = some e → winSum [1, 0, 1] (([2, 2, 2] : List Nat).map (· - 1)) p ≤ e := by
+  intro p e h
+  match p, h with
+  | 0, h => simp at h; subst h; decide
+  | 1, h => simp at h; subst h; decide
+  | p + 2, h => simp at h
+
+/-! axis None with a window list: one window per axis (NumPy: `axis = range(ndim)`, `len(window_shape) = ndim`).
+    `hw` / `hfit` again delimit the domain on which the model mirrors the C++ (no `size_t` wrap-around). -/
+
+set_option linter.unusedVariables false in
+theorem slidingWindowNone_shape (s ws : List Nat) (hl : ws.length = s.length) (hw : ∀ w ∈ ws, 1 ≤ w)
+    (hfit : ∀ (p e w : Nat), s[p]? = some e → ws[p]? = some w → w ≤ e + 1) :
+    ∃ v, slidingWindowView s ws none false = some v ∧ v.src = s ∧
+      v.dst = List.zipWith (fun e w => e - (w - 1)) s ws ++ ws := by
+  refine ⟨_, rfl, rfl, ?_⟩
+  simp [shrinkAll, hl]
+
+theorem slidingWindowNone_elem (s ws : List Nat) (v : IxView) (hv : slidingWindowView s ws none false = some v)
+    (i o : Idx) (hi : i.length = s.length) (ho : o.length = s.length) :
+    v.map (i ++ o) = some (List.zipWith (· + ·) i o) := by
+  simp only [slidingWindowView, shapeSlidingWindow, Bool.false_eq_true, if_false, Option.map_some,
+    Option.some.injEq] at hv
+  subst hv
+  have ht : (i ++ o).take s.length = i := by rw [← hi]; simp
+  have hdr : (i ++ o).drop s.length = o := by rw [← hi]; simp
+  simp [indexSlidingWindow, ht, hdr, ho]
+
+set_option linter.unusedVariables false in
+theorem slidingWindowNone_inBounds (s ws : List Nat) (hl : ws.length = s.length) (hw : ∀ w ∈ ws, 1 ≤ w)
+    (hfit : ∀ (p e w : Nat), s[p]? = some e → ws[p]? = some w → w ≤ e + 1) (v : IxView)
+    (hv : slidingWindowView s ws none false = some v) : v.InBounds := by
+  have hdst : v.src = s ∧ v.dst = List.zipWith (fun e w => e - (w - 1)) s ws ++ ws := by
+    simp only [slidingWindowView, shapeSlidingWindow, Bool.false_eq_true, if_false, Option.map_some,
+      Option.some.injEq] at hv
+    subst hv
+    exact ⟨rfl, by simp [shrinkAll, hl]⟩
+  intro d hd r hr
+  rw [hdst.2, inShape_append_iff] at hd
+  rw [hdst.1]
+  have hzl : (List.zipWith (fun e w => e - (w - 1)) s ws).length = s.length := by simp [hl]
+  rw [hzl] at hd
+  obtain ⟨hd1, hd2⟩ := hd
+  have h1 := hd1.length_eq
+  have h2 := hd2.length_eq
+  rw [hzl] at h1
+  have hsplit : d = d.take s.length ++ d.drop s.length := (List.take_append_drop _ _).symm
+  rw [hsplit, slidingWindowNone_elem s ws v hv _ _ h1 (by omega)] at hr
+  simp only [Option.some.injEq] at hr
+  subst hr
+  exact zipWith_add_inShape s ws _ _ hl hd1 hd2
+
+example : (slidingWindowView [3, 4] [2, 3] none false).map (fun v => (v.dst, v.map [1, 1, 1, 2])) =
+    some ([2, 2, 2, 3], some [2, 3]) := by decide
+
+example : ∀ (p e w : Nat), ([3, 4] : List Nat)[p]? = some e → ([2, 3] : List Nat)[p]? = some w → w ≤ e + 1 := by
+  intro p e w h1 h2
+  match p, h1, h2 with
+  | 0, h1, h2 => simp at h1 h2; omega
+  | 1, h1, h2 => simp at h1 h2; omega
+  | p + 2, h1, _ => simp at h1
+
+set_option linter.unusedVariables false in
+/-- scalar window with axis None: NumPy accepts it for rank 1 only, where it is the one-axis case
+    (`hw1` / `hw2`: the domain on which the model mirrors the C++, no `size_t` wrap-around) -/
+theorem slidingWindowScalarNone_rank1 (n w : Nat) (hw1 : 1 ≤ w) (hw2 : w ≤ n + 1) :
+    ∃ v, slidingWindowView [n] [w] none true = some v ∧ v.src = [n] ∧ v.dst = [n - (w - 1), w] ∧
+      ∀ i o, v.map [i, o] = some [i + o] := by
+  refine ⟨_, rfl, rfl, rfl, ?_⟩
+  intro i o
+  simp [indexSlidingWindow]
+
+example : (slidingWindowView [4] [2] none true).map (fun v => (v.dst, v.map [2, 1])) = some ([3, 2], some [3]) := by decide
+
 /-! ### split into `N` equal sections along axis `k` (NumPy `np.split(a, N, axis=k)`, `N ∣ extent`): `N` parts of
-    extent `n / N`, part `i` reads `a[…, x + i·(n/N), …]`.  Index-list splits are under correspondence only (PARTIAL);
-    cut points beyond the extent are a known finding (split.index-beyond-extent). -/
+    extent `n / N`, part `i` reads `a[…, x + i·(n/N), …]`.  Cut-point lists: `splitIdx_*` below (cut points beyond the
+    extent were a defect of the original code, "split.index-beyond-extent", repaired in /repo). -/
 
 theorem split_parts (s : Shape) (N k n : Nat) (hn : s[k]? = some n) :
     ∃ ps, splitViews s (some N) [] (k : Int) = some ps ∧ ps.length = N := by
@@ -939,6 +1075,102 @@ theorem split_inBounds (s : Shape) (N k n : Nat) (hn : s[k]? = some n) (hdiv : N
 
 example : (splitViews [2, 6] (some 3) [] 1).map (fun ps => ps.map (fun v => (v.dst, v.map [1, 1]))) =
     some [([2, 2], some [1, 1]), ([2, 2], some [1, 3]), ([2, 2], some [1, 5])] := by decide
+
+/-! ### split at a LIST of cut points (NumPy `np.split(a, [i1, i2, …], axis)`): `len + 1` parts, part `i` = `a[lo:hi]` on
+    the axis with `lo = ([0] + cuts)[i]`, `hi = (cuts + [n])[i]`; every accepted axis incl. negative; cut points beyond
+    the extent are clamped (empty trailing parts), repeated cut points give empty parts.  Domain: cut points `≥ 0`
+    (a negative cut point means "from the end" in NumPy and wraps to a huge `size_t` in the C++: outside the domain);
+    the partition statement additionally needs them sorted (NumPy's documented domain). -/
+
+/-- a cut list of length `m` gives `m + 1` parts, whatever the cut points (the C++ never refuses) -/
+theorem splitIdx_parts (s : Shape) (cuts : List Int) (axis : Int) (k : Nat)
+    (hk : normalizeAxis1 axis s.length = some k) :
+    ∃ ps, splitViews s none cuts axis = some ps ∧ ps.length = cuts.length + 1 := by
+  have hkn := (normalizeAxis1_some axis _ k hk).1
+  have hn : s[k]? = some s[k] := by simp [hkn]
+  exact ⟨_, splitViews_indices_eq s cuts axis k _ hk hn, by simp [splitBoundsIndices_length]⟩
+
+/-- part `i` is NumPy's `a[…, lo:hi, …]` with `lo = ([0] + cuts)[i]`, `hi = (cuts + [n])[i]` (Python slice semantics for
+    non-negative bounds: both clamped to the extent `n`, length `max(0, stop - start)`), element `x ↦ x + start` -/
+theorem splitIdx_elem (s : Shape) (cuts : List Int) (axis : Int) (k n : Nat)
+    (hk : normalizeAxis1 axis s.length = some k) (hn : s[k]? = some n) (hnn : ∀ c ∈ cuts, 0 ≤ c)
+    (ps : List IxView) (hps : splitViews s none cuts axis = some ps) (i : Nat) (v : IxView) (hv : ps[i]? = some v)
+    (lo hi : Nat) (hlo : (0 :: cuts.map Int.toNat)[i]? = some lo) (hhi : (cuts.map Int.toNat ++ [n])[i]? = some hi) :
+    v.src = s ∧ v.dst = replaceExtent s k (min hi n - min lo n) ∧
+      ∀ d x, d[k]? = some x → v.map d = some (d.set k (x + min lo n)) := by
+  have hkn := (normalizeAxis1_some axis _ k hk).1
+  rw [splitViews_indices_eq s cuts axis k n hk hn] at hps
+  simp only [Option.some.injEq] at hps
+  subst hps
+  rw [List.getElem?_map, splitBoundsIndices_getElem? n cuts hnn i lo hi hlo hhi] at hv
+  simp only [Option.map_some, Option.some.injEq] at hv
+  subst hv
+  refine ⟨rfl, ?_, ?_⟩
+  · rw [replaceExtent_eq_set s k _ hkn]
+    simp only [splitPart]
+    congr 2
+    omega
+  · intro d x hx
+    simp [splitPart, hx]
+
+/-- no part reads outside the source, whatever the (non-negative) cut points: beyond the extent ⇒ empty part -/
+theorem splitIdx_inBounds (s : Shape) (cuts : List Int) (axis : Int) (k : Nat)
+    (hk : normalizeAxis1 axis s.length = some k) (hnn : ∀ c ∈ cuts, 0 ≤ c)
+    (ps : List IxView) (hps : splitViews s none cuts axis = some ps) (i : Nat) (v : IxView) (hv : ps[i]? = some v) :
+    v.InBounds := by
+  have hkn := (normalizeAxis1_some axis _ k hk).1
+  have hn : s[k]? = some s[k] := by simp [hkn]
+  obtain ⟨ps', hps', hlen⟩ := splitIdx_parts s cuts axis k hk
+  rw [hps] at hps'; simp only [Option.some.injEq] at hps'; subst hps'
+  have hi : i < cuts.length + 1 := by
+    rw [← hlen]
+    exact (List.getElem?_eq_some_iff.1 hv).1
+  have h1 : i < (0 :: cuts.map Int.toNat).length := by simpa using hi
+  have h2 : i < (cuts.map Int.toNat ++ [s[k]]).length := by simpa using hi
+  obtain ⟨hsrc, hdst, hm⟩ := splitIdx_elem s cuts axis k _ hk hn hnn ps hps i v hv _ _
+    (List.getElem?_eq_getElem h1) (List.getElem?_eq_getElem h2)
+  intro d hd r hr
+  rw [hdst] at hd
+  rw [hsrc]
+  obtain ⟨x, hx, hxm, hd'⟩ := coord_of_inShape hkn hd
+  rw [hm d x hx] at hr
+  simp only [Option.some.injEq] at hr
+  subst hr
+  exact inShape_set_of_set hd' hkn (by omega)
+
+/-- sorted non-negative cut points: the parts PARTITION the axis — reading every part along the axis, one part after the
+    other, visits every source position `0 … n-1` exactly once and in order (all other coordinates unchanged, `d`) -/
+theorem splitIdx_partition (s : Shape) (cuts : List Int) (axis : Int) (k n : Nat)
+    (hk : normalizeAxis1 axis s.length = some k) (hn : s[k]? = some n) (hnn : ∀ c ∈ cuts, 0 ≤ c)
+    (hsorted : cuts.Pairwise (· ≤ ·))
+    (ps : List IxView) (hps : splitViews s none cuts axis = some ps) (d : Idx) (hd : d.length = s.length) :
+    ps.flatMap (fun v => axisReads v k d) = (List.range n).map some := by
+  have hkn := (normalizeAxis1_some axis _ k hk).1
+  rw [splitViews_indices_eq s cuts axis k n hk hn] at hps
+  simp only [Option.some.injEq] at hps
+  subst hps
+  rw [List.flatMap_map]
+  simp only [axisReads_splitPart s k n _ d hkn hd]
+  simp only [splitBoundsIndices, splitCuts_nonneg n cuts hnn]
+  rw [flatMap_zip_ranges n _ 0 (Nat.zero_le _)]
+  · simp [List.range_eq_range']
+  · rw [List.pairwise_map, List.pairwise_map]
+    refine hsorted.imp_of_mem ?_
+    intro a b ha hb hab
+    have := hnn a ha
+    have := hnn b hb
+    omega
+  · intro c hc
+    simp only [List.mem_map] at hc
+    obtain ⟨c', _, rfl⟩ := hc
+    omega
+
+example : normalizeAxis1 (-1) 2 = some 1 ∧ (∀ c ∈ [1, 1, 7], (0 : Int) ≤ c) ∧ ([1, 1, 7] : List Int).Pairwise (· ≤ ·) := by decide
+/-- cut points `[1, 1, 7]` on an axis of extent 4 (negative axis): parts `[0,1) [1,1) [1,4) [4,4)` -/
+example : (splitViews [2, 4] none [1, 1, 7] (-1)).map (fun ps => ps.map (fun v => (v.dst, v.map [1, 0]))) =
+    some [([2, 1], some [1, 0]), ([2, 0], some [1, 1]), ([2, 3], some [1, 1]), ([2, 0], some [1, 4])] := by decide
+example : (splitViews [2, 4] none [1, 1, 7] (-1)).map (fun ps => ps.flatMap (fun v => axisReads v 1 [1, 0])) =
+    some [some 0, some 1, some 2, some 3] := by decide
 
 /-! ### stack / hstack / vstack / dstack / column_stack = concatenate of the two operands reshaped to a promoted shape
     (`joinReshaped a b a' b' axis`).  Reshaping keeps the flat (C-order) position, so the element theorems of
@@ -1035,10 +1267,12 @@ example : (stackView [2] [2] 1).map (fun v => (v.dst, v.map [1, 0], v.map [1, 1]
 example : (vstackView [3] [2, 3]).map (fun v => (v.dst, v.map [0, 2], v.map [2, 1])) =
     some ([3, 3], some (false, [2]), some (true, [1, 1])) := by decide
 
-/-! ### diagonal — PARTIAL: proved for a matrix (rank 2, axes (0,1)) and EVERY offset (negative, beyond the extent: empty).
-    Full statement (not proved): for every rank and accepted axis pair `a1 ≠ a2`,
-    `dst = others ++ [max(0, min(s[a1] + min(off,0), s[a2] - max(off,0)))]` and
-    `out[o…, j] = a[o… with a1 ↦ j + max(-off,0), a2 ↦ j + max(off,0)]` (under correspondence for every rank).
+/-! ### diagonal (NumPy `np.diagonal(a, offset, axis1, axis2)`): for every rank, every accepted axis pair (negative
+    spellings included) whose normalised positions `a1 ≠ a2`, and EVERY offset (negative, beyond the extent: empty),
+    `dst = (shape without axes a1, a2) ++ [max(0, min(s[a1] + min(off,0), s[a2] - max(off,0)))]` and
+    `out[o…, j] = a[r]` where `r[a1] = j + max(-off,0)`, `r[a2] = j + max(off,0)` and `r` without the two axes is `o`
+    (`diagonal_shape`, `diagonal_elem`, `diagonal_inBounds`).  The matrix case `diagonal2d_*_partial` (rank 2, axes (0,1))
+    came first and is kept under its name as a regression statement; it is subsumed by the general theorems.
     The two defects of the original code (negative offset, offset beyond the extent) were repaired in /repo. -/
 
 /-- NumPy's diagonal length `max(0, min(n1 + min(off,0), n2 - max(off,0)))` -/
@@ -1104,6 +1338,88 @@ example : (diagonalView [1, 1] 2 0 1).map (·.dst) = some [0] := by decide
 example : diagLen 3 4 (-1) = 2 ∧ diagLen 3 4 5 = 0 := by decide
 
 example : (diagonalView [3, 4] 1 0 1).map (fun v => (v.dst, v.map [2])) = some ([3], some [2, 3]) := by decide
+
+/-! #### diagonal: any rank, any accepted axis pair -/
+
+/-- the clamp expression of `shape_diagonal` is NumPy's diagonal length -/
+private theorem shapeDiagonal_len (n1 n2 : Nat) (off : Int) :
+    i2u (if (if (if off < 0 then (n1 : Int) + off else n1) < (if off > 0 then (n2 : Int) - off else n2) then
+        (if off < 0 then (n1 : Int) + off else n1) else (if off > 0 then (n2 : Int) - off else n2)) < 0 then 0
+      else (if (if off < 0 then (n1 : Int) + off else n1) < (if off > 0 then (n2 : Int) - off else n2) then
+        (if off < 0 then (n1 : Int) + off else n1) else (if off > 0 then (n2 : Int) - off else n2))) = diagLen n1 n2 off := by
+  rw [i2u_of_nonneg _ (by split <;> omega)]
+  unfold diagLen
+  by_cases h1 : off < 0
+  · have h2 : ¬ (off > 0) := by omega
+    simp only [h1, h2, if_true, if_false]
+    split <;> split <;> omega
+  · by_cases h2 : off > 0
+    · simp only [h1, h2, if_true, if_false]
+      split <;> split <;> omega
+    · simp only [h1, h2, if_false]
+      split <;> split <;> omega
+
+/-- shape of `view::diagonal` = NumPy's: the source shape without the two axes, then the diagonal length -/
+theorem diagonal_shape (s : Shape) (off axis1 axis2 : Int) (a1 a2 n1 n2 : Nat)
+    (h1 : normalizeAxis1 axis1 s.length = some a1) (h2 : normalizeAxis1 axis2 s.length = some a2) (hne : a1 ≠ a2)
+    (hn1 : s[a1]? = some n1) (hn2 : s[a2]? = some n2) :
+    ∃ v, diagonalView s off axis1 axis2 = some v ∧ v.src = s ∧ v.dst = removeTwo s a1 a2 ++ [diagLen n1 n2 off] := by
+  simp only [diagonalView, h1, h2, shapeDiagonal, hn1, hn2, Option.map_some]
+  refine ⟨_, rfl, rfl, ?_⟩
+  show othersAux a1 a2 0 s ++ [_] = _
+  rw [othersAux_eq_removeTwo a1 a2 s hne, shapeDiagonal_len]
+
+/-- element `(o…, j)` reads the source index that carries `j + max(-off,0)` on axis1, `j + max(off,0)` on axis2 and
+    `o`, in order, on the remaining axes: NumPy's `a[…, j - min(off,0), …, j + max(off,0), …]` -/
+theorem diagonal_elem (s : Shape) (off axis1 axis2 : Int) (a1 a2 : Nat)
+    (h1 : normalizeAxis1 axis1 s.length = some a1) (h2 : normalizeAxis1 axis2 s.length = some a2) (hne : a1 ≠ a2)
+    (v : IxView) (hv : diagonalView s off axis1 axis2 = some v) (o : Idx) (j : Nat) (ho : o.length + 2 = s.length) :
+    ∃ r, v.map (o ++ [j]) = some r ∧ r.length = s.length ∧
+      r[a1]? = some (j + (max (-off) 0).toNat) ∧ r[a2]? = some (j + (max off 0).toNat) ∧ removeTwo r a1 a2 = o := by
+  have hk1 := (normalizeAxis1_some axis1 _ a1 h1).1
+  have hk2 := (normalizeAxis1_some axis2 _ a2 h2).1
+  simp only [diagonalView, h1, h2, Option.map_eq_some_iff] at hv
+  obtain ⟨dst, _, rfl⟩ := hv
+  obtain ⟨r, hr, hl, hr1, hr2, hrest⟩ := indexDiagonal_spec s o j off a1 a2 hne hk1 hk2 ho
+  have e1 : (if off < 0 then (-off).toNat else 0) = (max (-off) 0).toNat := by split <;> omega
+  have e2 : (if off > 0 then off.toNat else 0) = (max off 0).toNat := by split <;> omega
+  rw [e1] at hr1
+  rw [e2] at hr2
+  exact ⟨r, by simp [hr], hl, hr1, hr2, hrest⟩
+
+/-- no access of a diagonal view leaves the source (any extents: an empty diagonal has no element to read) -/
+theorem diagonal_inBounds (s : Shape) (off axis1 axis2 : Int) (a1 a2 : Nat)
+    (h1 : normalizeAxis1 axis1 s.length = some a1) (h2 : normalizeAxis1 axis2 s.length = some a2) (hne : a1 ≠ a2)
+    (v : IxView) (hv : diagonalView s off axis1 axis2 = some v) : v.InBounds := by
+  have hk1 := (normalizeAxis1_some axis1 _ a1 h1).1
+  have hk2 := (normalizeAxis1_some axis2 _ a2 h2).1
+  have hn1 : s[a1]? = some s[a1] := by simp [hk1]
+  have hn2 : s[a2]? = some s[a2] := by simp [hk2]
+  obtain ⟨w, hw, hsrc, hdst⟩ := diagonal_shape s off axis1 axis2 a1 a2 _ _ h1 h2 hne hn1 hn2
+  rw [hv] at hw; simp only [Option.some.injEq] at hw; subst hw
+  intro d hd i hi
+  rw [hdst] at hd
+  rw [hsrc]
+  have hlen := removeTwo_length s a1 a2 hne hk1 hk2
+  rw [inShape_append_iff] at hd
+  obtain ⟨hd1, hd2⟩ := hd
+  have hdl := hd1.length_eq
+  match hdr : d.drop (removeTwo s a1 a2).length, hd2 with
+  | [j], hd2 =>
+    have hsplit : d = d.take (removeTwo s a1 a2).length ++ [j] := by rw [← hdr, List.take_append_drop]
+    obtain ⟨r, hr, hl, hr1, hr2, hrest⟩ := diagonal_elem s off axis1 axis2 a1 a2 h1 h2 hne v hv
+      (d.take (removeTwo s a1 a2).length) j (by omega)
+    rw [hsplit, hr] at hi
+    simp only [Option.some.injEq] at hi
+    subst hi
+    have hj : j < diagLen s[a1] s[a2] off := by simpa [InShape] using hd2
+    unfold diagLen at hj
+    exact inShape_of_removeTwo r s a1 a2 hne hk1 hk2 hl _ _ _ _ hr1 hn1 (by omega) hr2 hn2 (by omega) (by rw [hrest]; exact hd1)
+
+example : normalizeAxis1 (-1) 3 = some 2 ∧ normalizeAxis1 0 3 = some 0 ∧ removeTwo [2, 3, 4] 2 0 = [3] ∧
+    diagLen 4 2 (-1) = 2 := by decide
+example : (diagonalView [2, 3, 4] (-1) (-1) 0).map (fun v => (v.dst, v.map [2, 0], v.map [1, 1])) =
+    some ([3, 2], some [0, 2, 1], some [1, 1, 2]) := by decide
 
 /-! ### stack with a negative axis: `expand_dims` and the repaired `concatenate` normalise against the same rank `dim+1` -/
 
